@@ -119,6 +119,8 @@ func (in *EVMInterpreter) Run(contract *Contract, input []byte, readOnly bool) (
 		in.readOnly = true
 		defer func() { in.readOnly = false }()
 	}
+	verifFrameEnter(in, contract, input, readOnly)
+	defer verifFrameExit(in, contract, input, readOnly, &ret, &logs, &err)
 
 	// Reset the previous call's return data. It's unimportant to preserve the old buffer
 	// as every returning call will return new data anyway.
@@ -188,6 +190,7 @@ func (in *EVMInterpreter) Run(contract *Contract, input []byte, readOnly bool) (
 		// Get the operation from the jump table and validate the stack to ensure there are
 		// enough stack items available to perform the operation.
 		op = contract.GetOp(pc)
+		verifStepFetched(in, pc, op, contract, stack, mem)
 		operation := in.jumpTable[op]
 		if operation == nil {
 			return nil, nil, &ErrInvalidOpCode{opcode: op}
@@ -253,12 +256,14 @@ func (in *EVMInterpreter) Run(contract *Contract, input []byte, readOnly bool) (
 		//logged = true
 
 		// execute the operation
+		verifStepCharged(in, pc, op, cost, contract, stack, mem)
 		res, err = operation.execute(&pc, in, callContext)
 		// if the operation clears the return data (e.g. it has returning data)
 		// set the last return to the result of the operation.
 		if operation.returns {
 			in.returnData = common.CopyBytes(res)
 		}
+		verifStepDone(in, pc, op, cost, contract, stack, mem, res, err)
 
 		switch {
 		case err != nil:
